@@ -270,14 +270,13 @@ PLANS = {
         steps=[
             mc("reader", "MCReader", "MCReader_quick.cfg", "MCReader_thorough.cfg"),
             mc("readersim", "MCReaderSim", "MCReaderSim.cfg", "MCReaderSim.cfg", replay=("reader", "pair"), workers=4, simulate={"quick": "num=3000", "thorough": "num=100000"}),
-            rec("reader", "pair", "TraceReader", 1500, 40000, 3, 10),
-            rec("reader", "async", "TraceReader", 500, 10000, 1, 4, salt=11),
+            rec("reader", "pair", "TraceReader", 1800, 45000, 3, 10),
         ],
         rule="as C07, each stream and schedule run through both readers (Poll::Pending where the blocking source returns Interrupted)",
         explanation="The async reader is the blocking machine with the retry action named Pending, so the exhaustive exploration of MCReader (every partition, every placement of "
                     "retries, Terminates under fairness that excludes infinite Pending) covers it. A: each simulated schedule is run through both real readers and the delivered "
                     "sequences and terminal classes compared. B: pair events (both readers, next_message_slice and read_message, same bytes and schedule): TLC checks equal deliveries, "
-                    "equal terminal class, identical content, no panic; async sessions are additionally validated like C07 sessions.",
+                    "equal terminal class, identical content, no panic. (That the asynchronous reader on its own also cuts the stream at the declared lengths - C07's relation for the other reader - is validated in `./check extras`, not here: C08 only compares the two readers.)",
     ),
     "C10": dict(
         sany=["Stats.tla", "mc/MCStats.tla", "trace/TraceStats.tla"],
@@ -335,6 +334,7 @@ PLANS = {
             rec("stats", "pipeline", "TraceStats", 600, 20000, 2, 8),
             rec("fibex", "decode", "TraceDecode", 200, 4000, 2, 8),
             rec("reader", "cont", "TraceReader", 400, 8000, 2, 8),
+            rec("reader", "async", "TraceReader", 500, 10000, 1, 4, salt=11),
             rec("build", "stampnow", "TraceBuild", 20, 40, 1, 1),
             mc("decode", "MCDecode", "MCDecode.cfg", "MCDecode.cfg", replay=("fibex", "decode")),
             dict(kind="custom", fn=tlaps_timestamps_always),
